@@ -1083,28 +1083,6 @@ fn glyph_raster_class(doc: &J) -> Option<&'static str> {
         _ => return None,
     };
     let mut class = None;
-    // a scene glyph with zero width and non-zero height: the rasterize crate indexes an empty row
-    // (rasterize.rs:111); the size is the LAST `size` entry, as the visitor keeps it
-    let has_scene = fields.iter().any(|(k, _)| k == "scene");
-    let size_hw = fields.iter().rev().find(|(k, _)| k == "size").and_then(|(_, v)| match v {
-        J::A(a) if a.len() == 2 => match (&a[0], &a[1]) {
-            (J::U(h), J::U(w)) => Some((*h, *w)),
-            _ => None,
-        },
-        J::O(o) => {
-            let get = |name: &str| o.iter().rev().find(|(k, _)| k == name).and_then(|(_, v)| if let J::U(x) = v { Some(*x) } else { None });
-            match (get("height"), get("width")) {
-                (Some(h), Some(w)) => Some((h, w)),
-                _ => None,
-            }
-        }
-        _ => None,
-    });
-    if let (true, Some((h, 0))) = (has_scene, size_hw) {
-        if h > 0 {
-            class = Some("glyph-degenerate-geometry");
-        }
-    }
     for (k, v) in fields.iter() {
         match (k.as_str(), v) {
             ("size", J::A(a)) if a.len() == 2 => {
@@ -1882,6 +1860,22 @@ pub fn generate(rng: &mut Rng, n: usize, tier: &str) -> Vec<Value> {
             let kids = vec![obj(vec![("flex", J::F(0.5)), ("view", inner.clone())]), eater, obj(vec![("flex", J::U(2)), ("view", inner)])];
             let doc = obj(vec![("type", js("flex")), ("direction", js(direction)), ("children", J::A(kids))]);
             v.push(json!({"kind": "view", "what": "view", "doc": j_to_spec(&doc)}));
+        }
+    }
+    // a glyph with a zero extent (0 x 0, 0 x n, n x 0), path or scene, bare / framed with a fill / a border / margins:
+    // it deserialises and rasterises to an empty image (the frame and the scene used to index the empty rows)
+    for (bi, body) in [("path", js("")), ("path", js("M0,0L1,1Z")), ("scene", obj(vec![("type", js("fill")), ("paint", js("#ff0000")), ("path", js("M0,0L1,1L0,1Z"))]))].into_iter().enumerate() {
+        for fi in 0..4usize {
+            for (h, w) in [(0u64, 0u64), (0, 3), (2, 0), (1, 0)] {
+                let mut f = vec![(body.0, body.1.clone()), ("size", J::A(vec![J::U(h), J::U(w)]))];
+                match fi {
+                    1 => f.push(("frame", obj(vec![("fill_color", js("red"))]))),
+                    2 => f.push(("frame", obj(vec![("border_color", js("red")), ("border_width", J::A(vec![J::U(1), J::U(1), J::U(1), J::U(1)]))]))),
+                    3 => f.push(("frame", obj(vec![("margin", J::A(vec![J::U(1), J::U(1), J::U(1), J::U(1)]))]))),
+                    _ => {}
+                }
+                v.push(json!({"kind": "view", "what": if (bi + fi) % 2 == 0 { "glyph" } else { "glyph_stream" }, "doc": j_to_spec(&obj(f))}));
+            }
         }
     }
     // a framed glyph whose border is far wider than any surface, in every regime of the unclamped arithmetic
